@@ -40,6 +40,8 @@ class Contract:
                                                          # (sound as long as they flow only into values the contract leaves unconstrained)
     opaque_loops: dict = field(default_factory=dict)     # loop ordinal -> {"via": local, "over": abstract list, "writes": [attrs]}: a loop that only builds the opaque
                                                          # local `via` from the elements of `over`; skipped after SYNTACTIC side conditions (see pyexec.opaque_loop)
+    local_asserts: dict = field(default_factory=dict)    # local name -> spec expr over the locals: an obligation stated right after every assignment to that
+                                                         # local (what the value computed at that point must be; lets a contract speak about an intermediate text)
     inline: list = field(default_factory=list)           # module-level helper functions whose REAL bodies are executed at their call sites (no contract of their own)
     alias: dict = field(default_factory=dict)            # parameter -> path it aliases at every call site (e.g. endprog -> state.end_progs.top); checked at call sites
     floor: int = 1                                      # vacuity guard: minimum number of obligations expected
